@@ -27,7 +27,7 @@
 //!                 fragment, and the transport checksum after independent reassembly
 use smoltcp::iface::{Config, Interface, SocketHandle, SocketSet};
 use smoltcp::phy::{Checksum, ChecksumCapabilities, Medium};
-use smoltcp::socket::{icmp, tcp, udp};
+use smoltcp::socket::{dhcpv4, icmp, tcp, udp};
 use smoltcp::time::Instant;
 use smoltcp::wire::*;
 use std::collections::BTreeMap;
